@@ -180,7 +180,7 @@ def impl_builtin(case):
         # ndarray or DataFrame; fitted on the data, on a series of another length, or on an object overwritten in place
         # afterwards; the fitted detector may have been used on other data with the same index before
         data, nfit = core.fit_for(det, case, X, reps=1)  # circular binary segmentation is cubic in the interval length
-        core.prior_use(det, case, X)
+        data = core.prior_use(det, case, X, data)
         y = det.predict(data)
         T = det.scores
         ivs = [(int(a), int(b)) for a, b in zip(T["interval_start"], T["interval_end"])]
